@@ -96,6 +96,15 @@ pub mod util;
 
 pub use msg::message::{Message, MessageBuilder};
 
+/// Verification hooks: re-exports of crate-private modules, compiled only with `--cfg rtcm_rs_verif`.
+#[cfg(rtcm_rs_verif)]
+pub mod verif_hooks {
+    pub use crate::df::assembler::Assembler;
+    pub use crate::df::bit_value;
+    pub use crate::df::dfs;
+    pub use crate::df::parser::Parser;
+}
+
 mod message_frame;
 pub use message_frame::MessageFrame;
 
